@@ -28,9 +28,9 @@ from ref import h5l  # noqa: E402
 PROP = "C02"
 ENGINE = "tb"
 USES_TRANSLATOR = True
-LEAN_TARGETS = ["H5V.Props.C02", "H5V.Props.C02Algo", "H5V.Props.C02Modes", "H5V.Props.C02Parse"]
+LEAN_TARGETS = ["H5V.Props.C02", "H5V.Props.C02Algo", "H5V.Props.C02Modes", "H5V.Props.C02Parse", "H5V.Props.C02ParseTotal"]
 LEANCHECKER = True
-AUDIT_IMPORTS = ["H5V.Props.C02", "H5V.Props.C02Algo", "H5V.Props.C02Modes", "H5V.Props.C02Parse"]
+AUDIT_IMPORTS = ["H5V.Props.C02", "H5V.Props.C02Algo", "H5V.Props.C02Modes", "H5V.Props.C02Parse", "H5V.Props.C02ParseTotal"]
 _TABLE_THEOREMS = [
     "C02_table_special", "C02_table_default_scope", "C02_table_list_item_scope", "C02_table_button_scope",
     "C02_table_table_scope", "C02_table_table_context", "C02_table_table_text_nodes", "C02_table_table_body_context",
@@ -77,7 +77,9 @@ MODES_THEOREM_NAMES = [
 PARSE_THEOREM_NAMES = [
     "modelStream_total", "C02_parse_eq_spec", "C02_parse_eq_spec_regrouped", "C02_parse_eq_spec_protocol",
     "C02_parse_eq_spec_facts", "C02_parse_eq_spec_chunked", "C02_parse_eq_spec_facts_chunked", "tokStreamOk_of_B",
-    "tokStreamOkX_of_B", "ExParse.doc_agrees", "ExParse.doc2_agrees", "ExParse.doc3_agrees", "ExParse.empty_chars_token"]
+    "tokStreamOkX_of_B", "ExParse.doc_agrees", "ExParse.doc2_agrees", "ExParse.doc3_agrees", "ExParse.empty_chars_token",
+    # Props/C02ParseTotal.lean: the EmptyOk hypothesis proved (joint invariant: tokenizer in a CDATA state => ignore_lf clear)
+    "C02_parse_eq_spec_total", "C02_parse_eq_spec_total_chunked", "ExParse.doc3_total"]
 THEOREMS = ["H5V.Props.C02." + t for t in _TABLE_THEOREMS + SPEC_THEOREM_NAMES + ALGO_THEOREM_NAMES + MODES_THEOREM_NAMES
             + PARSE_THEOREM_NAMES]
 
@@ -571,6 +573,9 @@ def oracle(line, out):
     if r is None:
         return "malformed output"
     STATS["prefix_checked"] += 1
+    why = tb.form_pointer_oracle(line, out)
+    if why:
+        return why
     why = prefix_violation(r["D"])
     if why and f[3] == "-":
         return "prefix: " + why
